@@ -440,6 +440,13 @@ def builtin_next(h: Any, args: List[AV], node: Any) -> AV:
         if len(args) > 1:
             return args[1]
         raise h.raise_("StopIteration", "", node)
+    if isinstance(it, (PyList, PyTuple, PyDict, PySet)) or (isinstance(it, Const) and not hasattr(it.value, "__next__")):
+        raise h.raise_("TypeError", "object is not an iterator", node)
+    if isinstance(it, Opaque) or (isinstance(it, Term) and it.op == "ITER"):
+        # an object only known to be iterable (e.g. the result of a method declared to return an Iterable): it may be
+        # a list, and next() needs an iterator
+        if h.ctx.choose(("is-iterator", it.id), [True, False]) is False:
+            raise h.raise_("TypeError", f"{getattr(it, 'label', 'the result of finditer()')} may be a plain iterable (a list), not an iterator: next() needs iter() first", node)
     if isinstance(it, GenV):
         events, terminal = h.i.run_gen(it)
         it = Stream(events, terminal, "iter", h.ctx.new_id())
